@@ -1,6 +1,107 @@
-From Coq Require Import List ZArith QArith Qcanon Bool Arith Ascii String.
+(* C05 — the equation language means what its arithmetic says, independent of how it is written.
+   Statements only; every proof is `exact <lemma of LangProofs>`.
+   Lang.parse + Lang.eval are the Spec (what a spelling means); Lang.classify and Lang.process_func_call are the
+   models of the PyRates-authored string handling; sympy is tied by the correspondence run only. *)
+From Coq Require Import List ZArith QArith Qcanon Bool Arith Ascii String Permutation.
 From PV Require Import Lang LangProofs.
 Import ListNotations.
-Example C05_nonvacuous : eval_string [(s2l "r", mkq 3 2)] [] (s2l "-r^2 + 2**3") = Some (mkq 23 4).
-Proof. vm_compute. reflexivity. Qed.
+Open Scope char_scope.
+Open Scope list_scope.
+
+(* ---- full statement (kept visible): every well-formed AST, every writing style ---- *)
+Definition C05_full_statement : Prop :=
+  forall (e : expr) (s : style), wf_expr e = true -> parse (print s e) = Some e.
+
+(* proved for the operator subset (numbers, identifiers, + - * / ^ **, unary minus, parentheses); guard: no_call.
+   Missing for the full statement: function calls `f(a, b)` (nested induction over argument lists through pArgs). *)
+Theorem C05_parse_print_partial : forall (e : expr) (s : style),
+  no_call e = true -> wf_expr e = true -> parse (print s e) = Some e.
+Proof. exact parse_print_partial. Qed.
+Print Assumptions C05_parse_print_partial.
+
+(* token level: any choice of redundant parentheses *)
+Theorem C05_parse_print_tokens : forall (e : expr) (ps : pstyle),
+  no_call e = true -> wf_expr e = true -> parse_toks (pr 0 ps e) = Some e.
+Proof. exact parse_print_toks. Qed.
+Print Assumptions C05_parse_print_tokens.
+
+(* hence: two spellings of one AST (spacing, ^ vs **, redundant parentheses) have the same value *)
+Theorem C05_spelling_independent : forall e s s' env venv, no_call e = true -> wf_expr e = true ->
+  eval_string env venv (print s e) = eval_string env venv (print s' e).
+Proof. exact spelling_independent. Qed.
+Print Assumptions C05_spelling_independent.
+
+(* tokenizer: blanks between tokens and the spelling of the power operator are irrelevant (all token kinds,
+   calls and commas included) *)
+Theorem C05_tokenize_render : forall sp pw ts, forallb lwf_tok ts = true -> tokenize (render sp pw 0 None ts) = Some ts.
+Proof. exact tokenize_render. Qed.
+Print Assumptions C05_tokenize_render.
+
+Theorem C05_tokenize_respace : forall sp pw sp' pw' ts, forallb lwf_tok ts = true ->
+  tokenize (render sp pw 0 None ts) = tokenize (render sp' pw' 0 None ts).
+Proof. exact tokenize_respace. Qed.
+Print Assumptions C05_tokenize_respace.
+
+Theorem C05_pow_same_token : tokenize (s2l "^") = Some [TPow] /\ tokenize (s2l "**") = Some [TPow].
+Proof. exact pow_same_token. Qed.
+Print Assumptions C05_pow_same_token.
+
+(* order of the terms of a sum / the factors of a product *)
+Theorem C05_sum_perm : forall env venv l l', Permutation l l' ->
+  eval env venv (sum_list l) = eval env venv (sum_list l').
+Proof. exact eval_sum_perm. Qed.
+Print Assumptions C05_sum_perm.
+
+Theorem C05_prod_perm : forall env venv l l', Permutation l l' ->
+  eval env venv (prod_list l) = eval env venv (prod_list l').
+Proof. exact eval_prod_perm. Qed.
+Print Assumptions C05_prod_perm.
+
+(* the two documented derivative notations: for every identifier x and every right-hand side without `=` *)
+Theorem C05_lhs_forms : forall x r, wf_id x = true -> notin "=" r = true ->
+  classify (s2l "d/dt * " ++ x ++ s2l " = " ++ r) = classify (x ++ s2l "' = " ++ r) /\
+  classify (x ++ s2l "' = " ++ r) = CEqn {| e_lhs := x; e_key := x; e_de := true; e_rhs := r |}.
+Proof. exact lhs_forms. Qed.
+Print Assumptions C05_lhs_forms.
+
+(* code generation: the textual replacement of a helper call removes exactly the call when its argument text has no `)` *)
+Theorem C05_surgery_atomic : forall pre f args post repl,
+  find (f ++ ["("]) (pre ++ f ++ "(" :: args ++ ")" :: post) = Some (List.length pre) ->
+  notin ")" f = true -> notin ")" args = true ->
+  process_func_call (pre ++ f ++ "(" :: args ++ ")" :: post) f repl =
+  Some (py_replace (f ++ "(" :: args ++ [")"]) repl (pre ++ f ++ "(" :: args ++ ")" :: post)).
+Proof. exact surgery_atomic. Qed.
+Print Assumptions C05_surgery_atomic.
+
+(* ... and is wrong for a compound first argument (replayed on the real code: corpus/C05/F3_noop_compound.json,
+   and `no_op(r*(rr + k))` -> SyntaxError in the call stream of harness/c05.py) *)
+Theorem C05_surgery_refuted_unbalanced :
+  balanced (s2l "identity(a*(b + k))") = true /\
+  option_map balanced (process_func_call (s2l "identity(a*(b + k))") (s2l "identity") (s2l "a*(b + k)")) = Some false.
+Proof. exact surgery_refuted_unbalanced. Qed.
+Print Assumptions C05_surgery_refuted_unbalanced.
+
+Theorem C05_surgery_refuted_precedence :
+  let env := [(s2l "r", mkq 3 2); (s2l "rr", mkq 1 4)] in
+  process_func_call (s2l "2*identity(r + rr)") (s2l "identity") (s2l "r + rr") = Some (s2l "2*r + rr") /\
+  oq_eqb (eval_string env [] (s2l "2*no_op(r + rr)")) (Some (mkq 7 2)) = true /\
+  oq_eqb (eval_string env [] (s2l "2*r + rr")) (Some (mkq 13 4)) = true.
+Proof. exact surgery_refuted_precedence. Qed.
+Print Assumptions C05_surgery_refuted_precedence.
+
+(* non-vacuity: a non-trivial AST (depth 4, three identifiers, every operator) satisfies the guards; printed in a style
+   with redundant parentheses, blanks and alternating ^ / ** it parses back to itself; its value is 41/32 *)
+Example C05_nonvacuous :
+  let e := Sub (Add (Neg (Pow (Var (s2l "r")) (Num ["2"] []))) (Mul (Num ["0"] ["2"; "5"]) (Pow (Var (s2l "x_v1")) (Pow (Num ["2"] []) (Num ["2"] [])))))
+               (Div (Mul (Add (Var (s2l "x_v1")) (Var (s2l "weight"))) (Var (s2l "r"))) (Num ["4"] [])) in
+  let st := {| st_par := fun p => match p with [] => 1%nat | [_] => 0%nat | _ => 1%nat end;
+               st_sp := fun i => Nat.modulo i 3; st_pw := fun i => Nat.even i |} in
+  (no_call e && wf_expr e = true) /\ parse (print st e) = Some e /\
+  (48 <=? List.length (print st e) = true)%nat /\
+  oq_eqb (eval (lookup [(s2l "r", mkq 3 2); (s2l "x_v1", mkq 2 1); (s2l "weight", mkq (-3) 4)]) (fun _ => None) e)
+         (Some (mkq 41 32)) = true.
+Proof.
+  split; [vm_compute; reflexivity|]. split; [apply parse_print_partial; vm_compute; reflexivity|].
+  split; vm_compute; reflexivity.
+Qed.
 Print Assumptions C05_nonvacuous.
